@@ -4,8 +4,14 @@ namespace HailVerif.TxRetry
 
 variable {σ W : Type} (step : σ → W → Except Err σ)
 
+/-- `PrometheusSQLTimer.__aexit__` returns a falsy value (`Generated.SqlTimer.aexitTruthy = false`, re-read from
+`gear/gear/metrics.py` on every run), so the timer around an instrumented statement never changes its outcome: an
+exception raised by `cursor.execute` propagates exactly as it does for a statement issued without a `query_name`. -/
+theorem timed_eq (named : Bool) (cur : σ) (r : Except Err σ) : timed named cur r = r := by
+  cases r <;> simp [timed, Generated.SqlTimer.aexitTruthy]
+
 /-- an attempt whose injected fault did not fire ran exactly the statements of the body -/
-theorem exec_ok_imp_faultfree (ws : List W) : ∀ (cur : σ) (f : Option (Nat × Err)) (s : σ),
+theorem exec_ok_imp_faultfree (ws : List (Bool × W)) : ∀ (cur : σ) (f : Option (Nat × Err)) (s : σ),
     exec step cur ws f = .ok s → exec step cur ws none = .ok s := by
   induction ws with
   | nil =>
@@ -18,15 +24,16 @@ theorem exec_ok_imp_faultfree (ws : List W) : ∀ (cur : σ) (f : Option (Nat ×
       | zero => simp [exec] at h
       | succ i => simpa [exec] using h
   | cons w ws ih =>
+    obtain ⟨q, w⟩ := w
     intro cur f s h
     cases f with
     | none => exact h
     | some p =>
       obtain ⟨i, e⟩ := p
       cases i with
-      | zero => simp [exec] at h
+      | zero => simp [exec, timed_eq] at h
       | succ i =>
-        simp only [exec] at h ⊢
+        simp only [exec, timed_eq] at h ⊢
         cases hs : step cur w with
         | error e' => simp [hs] at h
         | ok cur' =>
@@ -34,7 +41,7 @@ theorem exec_ok_imp_faultfree (ws : List W) : ∀ (cur : σ) (f : Option (Nat ×
           exact ih cur' _ s h
 
 /-- a committed attempt leaves exactly the state produced by the body's statements -/
-theorem attempt_ok (db db' : σ) (body : List W) (f : Option (Nat × Err))
+theorem attempt_ok (db db' : σ) (body : List (Bool × W)) (f : Option (Nat × Err))
     (h : attempt step db body f = (db', none)) : exec step db body none = .ok db' := by
   unfold attempt at h
   simp only [Conn.begin] at h
@@ -46,7 +53,7 @@ theorem attempt_ok (db db' : σ) (body : List W) (f : Option (Nat × Err))
     exact exec_ok_imp_faultfree step body db f cur hx
 
 /-- a failed attempt leaves the database as it found it -/
-theorem attempt_err (db db' : σ) (body : List W) (f : Option (Nat × Err)) (e : Err)
+theorem attempt_err (db db' : σ) (body : List (Bool × W)) (f : Option (Nat × Err)) (e : Err)
     (h : attempt step db body f = (db', some e)) : db' = db := by
   unfold attempt at h
   simp only [Conn.begin] at h
@@ -56,7 +63,7 @@ theorem attempt_err (db db' : σ) (body : List W) (f : Option (Nat × Err)) (e :
     exact h.1.symm
   | ok cur => simp [hx, Conn.commit] at h
 
-theorem runFrom_spec (db : σ) (body : List W) (scripts : List (Option (Nat × Err))) : ∀ n,
+theorem runFrom_spec (db : σ) (body : List (Bool × W)) (scripts : List (Option (Nat × Err))) : ∀ n,
     ((runFrom step n db body scripts).error = none → exec step db body none = .ok (runFrom step n db body scripts).db) ∧
     (∀ e, (runFrom step n db body scripts).error = some e → (runFrom step n db body scripts).db = db) := by
   induction scripts with
@@ -82,7 +89,7 @@ theorem runFrom_spec (db : σ) (body : List W) (scripts : List (Option (Nat × E
       · simp only [hr]
         exact ⟨fun h => by simp at h, fun _ _ => rfl⟩
 
-theorem attempts_runFrom_ge (db : σ) (body : List W) (scripts : List (Option (Nat × Err))) : ∀ n,
+theorem attempts_runFrom_ge (db : σ) (body : List (Bool × W)) (scripts : List (Option (Nat × Err))) : ∀ n,
     n + 1 ≤ (runFrom step n db body scripts).attempts := by
   induction scripts generalizing db with
   | nil => intro n; simp only [runFrom]; rcases attempt step db body none with ⟨_, _⟩; simp
